@@ -255,7 +255,8 @@ Definition response_eof (cf : cfg) (s : state) (e : N) : state :=
 (* ---- ghost bookkeeping for one arriving token (not for tokens replayed from _tail) ---- *)
 Definition ghost_prog (p : prog) (tk : token) : prog * bool :=   (* new progress, became dirty *)
   match p, tk with
-  | GNone, KHead _ blen _ up => if up then (GDone, true) else if blen =? 0 then (GDone, false) else (GBody blen, false)
+  | GNone, KHead _ blen cl up =>   (* an upgrade, or a response announcing `Connection: close`, ends the connection's reusable life *)
+      if up then (GDone, true) else if blen =? 0 then (GDone, cl) else (GBody blen, cl)
   | GNone, _ => (GNone, true)
   | GBody rem, KBody _ n => if n <? rem then (GBody (rem - n), false) else if n =? rem then (GDone, false) else (GDone, true)
   | GBody rem, _ => (GBody rem, true)
@@ -456,8 +457,9 @@ Definition do_body (cf : cfg) (s : state) (e : N) : option state :=
       | None => Some (fin s)
       | Some pid =>
           let pl := s_pay s pid in
-          if p_exc pl then
-            (* read() raises; self.close() *)
+          if p_exc pl || (negb (p_eof pl) && negb (c_conn (s_conn s (x_conn x)))) then
+            (* read() raises (the payload's exception, or "Connection closed." when the transport is gone and
+               nothing can complete the payload any more); self.close() *)
             let s1 := set_exch s e (set_x_held (set_x_closed (set_x_st x XDone) true) false) in
             Some (if x_held x then release_conn cf s1 (x_conn x) true else s1)
           else if p_eof pl then
